@@ -100,12 +100,12 @@ def run(ctx):
     # ---- S->C: TLC behaviours into the real splitter ------------------
     checked_pools()
     scripts = []
-    n = 600 if quick else 30000
+    n = 600 if quick else 9000
     for i, part in enumerate([ALL, ['proc', 'if', 'nestedbegin', 'for', 'whileloop', 'loop', 'whiledo'],
                               ['proc', 'casestmt', 'caseexpr_body', 'declare', 'if']]):
         scripts += splitfam.emit_scripts(ctx, part, depth, 'C17_emit_%d' % i, simulate=n // 3,
                                          maxlen=40 if quick else 60, minlen=8, seed=ctx.seed * 7 + i + 1)
-    cover = splitfam.cover_scripts(ctx, ALL, depth - 1 if quick else depth, 'C17_cover', transitions=not quick)
+    cover = splitfam.cover_scripts(ctx, ALL, depth - 1 if quick else depth - 1, 'C17_cover', transitions=not quick)
     for i, c in enumerate(cover):
         for j in (range(len(splitfam.PROBES)) if not quick else [i]):
             scripts.append({'hist': splitfam.with_probe(c['hist'], j)})
